@@ -154,11 +154,12 @@ Definition data_problem (dec : bool) (k : sym_kind) (n : nat) : list sentinel :=
   end.
 
 (* wrong data length for which it defines none (the error values belong to the sub-packages):
-   key data to wrap that is not a whole number of 64-bit blocks, a wrapped key that is not at
+   key data to wrap that is empty or not a whole number of 64-bit blocks (RFC 3394 wraps n >= 2
+   blocks, the package also n = 1; nothing cannot be wrapped), a wrapped key that is not at
    least two of them, an encrypt-then-MAC ciphertext that is not whole AES blocks *)
 Definition data_unnamed_problem (dec : bool) (k : sym_kind) (n : nat) : bool :=
   match k with
-  | SK_Kw => negb (Nat.eqb (n mod 8) 0) || (dec && Nat.ltb n 16)
+  | SK_Kw => negb (Nat.eqb (n mod 8) 0) || (if dec then Nat.ltb n 16 else Nat.eqb n 0)
   | SK_CbcHs _ _ _ _ => dec && negb (Nat.eqb (n mod 16) 0)
   | _ => false
   end.
